@@ -186,6 +186,18 @@ def run(ck, prog):
             # the pushed value is the same diagnostic
     ck.ob("R09.3", "bucket-key", ok, "diagnostics::exec buckets each diagnostic under diagnostic.location.file",
           msg="diagnostics::exec no longer files each diagnostic under its own location's file")
+    # shared with C12 (same defect seen from here): the editor's text is recorded before anything re-reads files
+    from .c12 import overlay_tables, overlay_before_reread, SERVER_SET as _SS
+    from ..callgraph import callgraph as _cgf
+    _cg = _cgf(prog)
+    _sb = prog.body(_SS)
+    ck.anchor(_sb is not None, "Server::set_file_content not found")
+    _ri, _ow = overlay_tables(prog, _cg)
+    from .c10 import conversion_basis
+    ck.rule("R09.4", "the conversions use LF/CR/CRLF line breaks and UTF-16 columns (shared with C10)")
+    conversion_basis(ck, prog, "R09.4")
+    ck.rule("R09.5", "positions are converted against the text the editor sent: it is in the open-document table before the include walk re-reads files")
+    overlay_before_reread(ck, prog, _cg, _sb, _ow, _ri, "R09.5")
 
 
 def same_entry(lc, vc):
